@@ -18,11 +18,13 @@ import (
 	"github.com/hyperledger/aries-framework-go/component/models/did"
 	"github.com/hyperledger/aries-framework-go/component/storageutil/mem"
 	"github.com/hyperledger/aries-framework-go/pkg/didcomm/common/service"
+	"github.com/hyperledger/aries-framework-go/pkg/didcomm/dispatcher"
 	"github.com/hyperledger/aries-framework-go/pkg/didcomm/protocol/didexchange"
 	"github.com/hyperledger/aries-framework-go/pkg/didcomm/protocol/introduce"
 	"github.com/hyperledger/aries-framework-go/pkg/didcomm/protocol/issuecredential"
 	"github.com/hyperledger/aries-framework-go/pkg/didcomm/protocol/legacyconnection"
 	"github.com/hyperledger/aries-framework-go/pkg/didcomm/protocol/messagepickup"
+	"github.com/hyperledger/aries-framework-go/pkg/didcomm/protocol/outofbandv2"
 	"github.com/hyperledger/aries-framework-go/pkg/didcomm/protocol/presentproof"
 	"github.com/hyperledger/aries-framework-go/pkg/didcomm/transport"
 	"github.com/hyperledger/aries-framework-go/pkg/framework/aries"
@@ -46,6 +48,10 @@ type ProtoCase struct {
 	// the mutated message (role-consistent prefixes of the protocol's exchanges; the agent's application continues
 	// every action, so the thread is in the state those messages lead to)
 	Pre string `json:"pre,omitempty"`
+	// Via: "" = HandleInbound of the accepting services; "oobv2-accept" = the application hands the received
+	// out-of-band 2.0 invitation to AcceptInvitation; "batch-reply" = the message answers a BatchPickup call of the
+	// application that is waiting for its batch
+	Via string `json:"via,omitempty"`
 }
 
 // ---------- templates: what the framework's encoders emit for each message type (thread T) ----------
@@ -151,14 +157,14 @@ func templates() map[string][]string {
 			`{"@type":"https://didcomm.org/messagepickup/1.0/status-request","@id":"T§",` + thread + `}`,
 			`{"@type":"https://didcomm.org/messagepickup/1.0/batch-pickup","@id":"m1","batch_size":1,` + thread + `}`,
 			`{"@type":"https://didcomm.org/messagepickup/1.0/status","@id":"m2","message_count":1,"duration_waited":1,"last_added_time":"2020-01-01T00:00:00Z","last_delivered_time":"2020-01-01T00:00:00Z","last_removed_time":"2020-01-01T00:00:00Z","total_size":1,` + thread + `}`,
-			`{"@type":"https://didcomm.org/messagepickup/1.0/batch","@id":"m3","messages~attach":[{"id":"x","message":{"protected":"e30"}}],` + thread + `}`,
+			`{"@type":"https://didcomm.org/messagepickup/1.0/batch","@id":"@BATCHID@","messages~attach":[{"id":"x","message":{"protected":"e30"}}],` + thread + `}`,
 			`{"@type":"https://didcomm.org/messagepickup/1.0/noop","@id":"m4","~timing":{}}`,
 		},
 		"outofband": {
 			`{"@type":"https://didcomm.org/out-of-band/1.0/invitation","@id":"T§","label":"bob","goal":"g","goal_code":"gc","services":[{"id":"s1","type":"did-communication","recipientKeys":["did:key:z6MkpTHR8VNsBxYAAWHut2Geadd9jSwuBV8xRoAnwWsdvktH"],"serviceEndpoint":"http://127.0.0.1:1/"},"` + theirDID + `"],"accept":["didcomm/aip2;env=rfc19"],"handshake_protocols":["https://didcomm.org/didexchange/1.0"],"requests~attach":[` + att + `]}`,
 			`{"@type":"https://didcomm.org/out-of-band/1.0/handshake-reuse","@id":"h1§","~thread":{"thid":"h1§","pthid":"T§"}}`,
 			`{"@type":"https://didcomm.org/out-of-band/1.0/handshake-reuse-accepted","@id":"h2","~thread":{"thid":"h1§","pthid":"T§"}}`,
-			`{"type":"https://didcomm.org/out-of-band/2.0/invitation","id":"T2§","from":"` + theirDID + `","label":"bob","body":{"goal":"g","goal_code":"gc","accept":["didcomm/v2"]},"attachments":[{"id":"a","media_type":"application/json","data":{"json":{"type":"https://didcomm.org/present-proof/3.0/request-presentation","id":"x","body":{}}}}]}`,
+			`{"type":"https://didcomm.org/out-of-band/2.0/invitation","id":"T2§","from":"` + theirDID + `","label":"bob","body":{"goal":"g","goal_code":"gc","accept":["didcomm/v2","didcomm/aip2;env=rfc19"]},"attachments":[{"id":"a","media_type":"application/json","data":{"json":{"type":"https://didcomm.org/present-proof/3.0/request-presentation","id":"x","body":{}}}}]}`,
 		},
 	}
 }
@@ -189,12 +195,20 @@ type workReq struct {
 	Wait int             `json:"wait_ms"`
 	Inv  string          `json:"inv"` // id of the item's invitation / parent thread
 	Alt  string          `json:"alt"` // thread id to use when the agent has no connection record for Inv
+	Via  string          `json:"via"`
 }
 
 type nullTransport struct{}
 
+var sentCh = make(chan []byte, 1024)
+
 func (nullTransport) Start(transport.Provider) error { return nil }
-func (nullTransport) Send([]byte, *service.Destination) (string, error) {
+func (nullTransport) Send(data []byte, _ *service.Destination) (string, error) {
+	select {
+	case sentCh <- data:
+	default:
+	}
+
 	return "", nil
 }
 func (nullTransport) AcceptRecipient([]string) bool { return true }
@@ -214,7 +228,9 @@ type svc interface {
 
 func newTarget() *target {
 	fw, err := aries.New(aries.WithStoreProvider(mem.NewProvider()), aries.WithProtocolStateStoreProvider(mem.NewProvider()),
-		aries.WithOutboundTransports(nullTransport{}))
+		aries.WithOutboundTransports(nullTransport{}),
+		// the goal code of the out-of-band 2.0 template is routed to the present-proof service
+		aries.WithServiceMsgTypeTargets(dispatcher.MessageTypeTarget{Target: "gc", MsgType: "present-proof/3.0/request-presentation"}))
 	must(err)
 
 	ctx, err := fw.Context()
@@ -321,6 +337,83 @@ func (t *target) threadOf(inv, alt string) string {
 	return alt
 }
 
+// acceptOOBv2: what an application does with an out-of-band 2.0 invitation it received.
+func (t *target) acceptOOBv2(raw []byte) {
+	inv := &outofbandv2.Invitation{}
+	if json.Unmarshal(raw, inv) != nil {
+		return
+	}
+
+	s, err := t.ctx.Service(outofbandv2.Name)
+	if err != nil {
+		return
+	}
+
+	if o, ok := s.(*outofbandv2.Service); ok {
+		_, e := o.AcceptInvitation(inv)
+		if e != nil && os.Getenv("C03_DEBUG") != "" {
+			fmt.Fprintf(os.Stderr, "c03-debug: oobv2 AcceptInvitation: %v\n", e)
+		}
+	}
+}
+
+// batchReply: the application asks its router for a batch; the message is the router's answer to that very request.
+func (t *target) batchReply(raw []byte) {
+	var mp *messagepickup.Service
+
+	for _, s := range t.svcs {
+		if m, ok := s.(*messagepickup.Service); ok {
+			mp = m
+		}
+	}
+
+	if mp == nil {
+		return
+	}
+
+	for len(sentCh) > 0 {
+		<-sentCh
+	}
+
+	done := make(chan struct{})
+
+	go func() {
+		_, _ = mp.BatchPickup("conn1", 1)
+
+		close(done)
+	}()
+
+	var packed []byte
+
+	select {
+	case packed = <-sentCh:
+	case <-done:
+		return
+	case <-time.After(2 * time.Second):
+		return
+	}
+
+	env, err := t.ctx.Packager().UnpackMessage(packed)
+	if err != nil {
+		return
+	}
+
+	var req struct {
+		ID string `json:"@id"`
+	}
+
+	if json.Unmarshal(env.Message, &req) != nil {
+		return
+	}
+
+	t.deliver(bytes.ReplaceAll(raw, []byte("@BATCHID@"), []byte(req.ID)), true)
+
+	select {
+	case <-done:
+	case <-time.After(200 * time.Millisecond):
+	}
+}
+
 func (t *target) deliver(raw []byte, conn bool) {
 	msg, err := service.ParseDIDCommMsgMap(raw)
 	if err != nil {
@@ -360,7 +453,14 @@ func workerMain(_ string) {
 						raw = bytes.ReplaceAll(raw, []byte("@THID@"), []byte(t.threadOf(req.Inv, req.Alt)))
 					}
 
-					t.deliver(raw, req.Conn)
+					switch req.Via {
+					case "oobv2-accept":
+						t.acceptOOBv2(raw)
+					case "batch-reply":
+						t.batchReply(raw)
+					default:
+						t.deliver(raw, req.Conn)
+					}
 
 					if req.Wait > 0 {
 						time.Sleep(time.Duration(req.Wait) * time.Millisecond)
@@ -453,7 +553,7 @@ func runBatch(items []protoItem, quiesce int) batchResult {
 				}
 
 				b, _ := json.Marshal(workReq{Op: "msg", ID: i, Msg: m, Conn: it.pc.Conn, Wait: wait, //nolint:errcheck
-					Inv: "P" + it.uniq, Alt: "T" + it.uniq})
+					Inv: "P" + it.uniq, Alt: "T" + it.uniq, Via: it.pc.Via})
 				w.Write(b)                                                                           //nolint:errcheck
 				w.WriteByte('\n')                                                                    //nolint:errcheck
 			}
@@ -579,6 +679,32 @@ func (r *runner) protoItems() []protoItem {
 		}
 	}
 
+	// entry points of the application that consume a peer's message: AcceptInvitation of an out-of-band 2.0
+	// invitation, the answer to a pending BatchPickup
+	for _, v := range []struct {
+		proto string
+		idx   int
+		via   string
+	}{{"outofband", 3, "oobv2-accept"}, {"messagepickup", 3, "batch-reply"}} {
+		tree, ok := explodeWire([]byte(tpls[v.proto][v.idx]))
+		if !ok {
+			continue
+		}
+
+		muts := append([]Mut{{Path: "", Name: "seed", Tree: tree}}, closure(tree)...)
+
+		for mi, m := range muts {
+			if r.tier != "thorough" && m.Name != "seed" && m.Name != "null" && m.Name != "arr-null" && (mi+int(r.seed))%4 != 0 {
+				continue
+			}
+
+			it := protoItem{pc: ProtoCase{Proto: v.proto, Index: v.idx, Path: m.Path, Mut: m.Name, Conn: true, Via: v.via},
+				uniq: fmt.Sprintf("-%d", len(items))}
+			it.seq = append(it.seq, bytes.ReplaceAll(render(m.Tree), []byte("§"), []byte(it.uniq)))
+			items = append(items, it)
+		}
+	}
+
 	// state-dependent injection: after every prefix of every role-consistent path, every template of the protocol
 	// (seed + a rotating sample of its closure; the thorough tier takes every fourth mutation)
 	stride := 37
@@ -663,7 +789,7 @@ func (r *runner) emitProto(kind string, it protoItem, res batchResult, alone boo
 
 	rec.Observed = o
 	rec.Class = fmt.Sprintf("E9|%s|%d|%s|%s|%v|%v|%s|%s", it.pc.Proto, it.pc.Index, it.pc.Path, it.pc.Mut, it.pc.Conn, it.pc.Second,
-		it.pc.Pre, o.Class)
+		it.pc.Pre+it.pc.Via, o.Class)
 	rec.Dist = []string{"layer:E9", "ep:HandleInbound:" + it.pc.Proto, "outcome:" + o.Class, "gen:proto"}
 	if it.pc.Pre != "" {
 		rec.Dist = append(rec.Dist, "after-prefix:"+it.pc.Proto+":"+it.pc.Pre)
@@ -673,8 +799,8 @@ func (r *runner) emitProto(kind string, it protoItem, res batchResult, alone boo
 		r.fails++
 		rec.Oracle = "fail"
 		rec.Sig = o.Class + "@" + o.Site
-		rec.Detail = fmt.Sprintf("%s in a handler goroutine of the agent: protocol %s, template %d, %s %s (conn=%v, delivered twice=%v, after prefix [%s]): %s",
-			o.Class, it.pc.Proto, it.pc.Index, it.pc.Path, it.pc.Mut, it.pc.Conn, it.pc.Second, it.pc.Pre, o.Err)
+		rec.Detail = fmt.Sprintf("%s in a handler goroutine of the agent: protocol %s, template %d, %s %s (conn=%v, delivered twice=%v, after prefix [%s], via %q): %s",
+			o.Class, it.pc.Proto, it.pc.Index, it.pc.Path, it.pc.Mut, it.pc.Conn, it.pc.Second, it.pc.Pre, it.pc.Via, o.Err)
 
 		if !alone {
 			rec.Detail += " [attributed inside a batch]"
